@@ -346,7 +346,7 @@ def _attrs(attrs, ch: Chooser, ascii_only):
     return "".join(out)
 
 
-def _element(kind, attrs, text, children, ch: Chooser, indent, ascii_only):
+def _element(kind, attrs, text, children, ch: Chooser, indent, ascii_only, cdata=None):
     head = f"<{kind}{_attrs(attrs, ch, ascii_only)}"
     if not children and not text:
         style = ch.next(3)
@@ -355,10 +355,15 @@ def _element(kind, attrs, text, children, ch: Chooser, indent, ascii_only):
     if text:
         pad_l = ["", " ", "\n  ", "\t"][ch.next(4)]
         pad_r = ["", " ", "\n", "  "][ch.next(4)]
-        body = pad_l + _esc(text, None, ch, ascii_only=ascii_only) + pad_r
+        # some XML writers wrap every text value in a CDATA section, in which markup characters travel raw
+        cdata_ok = "]]>" not in text and all((0x20 <= ord(c) <= 0x7E) or (not ascii_only and 0xA0 <= ord(c) <= 0xFF) for c in text)
+        if cdata_ok and (cdata == "force" or ch.next(7) == 6):
+            body = pad_l + "<![CDATA[" + text + "]]>" + pad_r
+        else:
+            body = pad_l + _esc(text, None, ch, ascii_only=ascii_only) + pad_r
     if children:
         ws = ["", "\n", "\n  ", " "][indent]
-        body += "".join(ws + _element(c["kind"], c["attrs"], c.get("text"), [], ch, indent, ascii_only) for c in children)
+        body += "".join(ws + _element(c["kind"], c["attrs"], c.get("text"), [], ch, indent, ascii_only, cdata) for c in children)
         body += ["", "\n", "\n", " "][indent]
     return f"{head}>{body}</{kind}>"
 
@@ -368,7 +373,7 @@ def render_foreign(spec, choices, ascii_only=True) -> str:
     ch = Chooser(choices)
     decl = ["", '<?xml version="1.0"?>\n', "<?xml version='1.0' encoding='UTF-8'?>", '<?xml version="1.0"?>'][ch.next(4)]
     indent = ch.next(4)
-    body = _element(spec["kind"], spec["attrs"], spec.get("text"), spec.get("children", []), ch, indent, ascii_only)
+    body = _element(spec["kind"], spec["attrs"], spec.get("text"), spec.get("children", []), ch, indent, ascii_only, spec.get("cdata"))
     # XML allows white space before the '>' of an end tag (drawn LAST, so that earlier choices keep their meaning)
     if body.endswith(f"</{spec['kind']}>"):
         body = body[:-1] + ["", "", "", " ", "\n", "\t"][ch.next(6)] + ">"
